@@ -204,7 +204,8 @@ CHECKS = {
              "1 worker x capacity 2 with probes (exhaustive for one or two sender threads of <= 2 Sends in quick, seeded sample "
              "of the 3-thread ones; all in thorough) plus Stop/Run scenarios - pause-point trace, execution order, accepted jobs, "
              "queues and flusher lock compared with the model, property oracle on every run; 2000 (thorough 30000) randomized "
-             "Send/Stop/Run programs under the real scheduler with gated jobs; a sample re-evaluated by vm_compute.",
+             "Send/Stop/Run programs under the real scheduler with gated jobs; a sample re-evaluated by vm_compute. "
+             "A third of the jobs of the randomized programs are sent with a request-scoped context that is cancelled as soon as Send has returned: an accepted job is executed all the same.",
         design="7/C16", technique="Coq proof (invariants over all interleavings, conserved occurrence count per job) + schedule replay of the "
                                   "extracted model's schedules on the real pool + randomized concurrent programs",
         note="Step granularity = pause points (DESIGN appendix A): interleavings inside a step and the runtime's Mutex/WaitGroup/"
@@ -228,7 +229,8 @@ CHECKS = {
              "verif-tagged accessor; the extracted model replays the history with the observed choices and must print the "
              "same per-directory counts, active sets and counters and must allow every observed choice; the property oracle "
              "(count <= limit, every root offered room when a write was placed, freed directories are active again and get "
-             "written again, placement shape, counter = number of active directories) is evaluated on the observations.",
+             "written again, placement shape, counter = number of active directories) is evaluated on the observations. "
+             "Also: root paths spelled with a trailing slash or a ./ component, and a configuration change between two openings (written with n roots, reopened with the first k, deletions and a collection, then new writes: every new content lies in <configured root>/<uuid>/<uuid>).",
         design="7/C17", technique="Coq proof (invariant by induction over operation histories, loop invariants for the two "
                                   "loops of dir.Get) + full-stack correspondence run on a real file system",
         note="Sequential histories only. The directory choice (shuffle, free-space filter) is an input of the model, so the "
@@ -250,7 +252,8 @@ CHECKS = {
              "decode is total, rejects exactly strings shorter than 40 bytes, and marshal(unmarshal bs) = bs; canonical textual "
              "ids round-trip. Tie: real marshalFile/unmarshalFile and the repository's Set/GetAll over a recording provider are "
              "compared byte-for-byte with the extracted model on boundary + random records, arbitrary byte strings, golden vectors. "
-             "Also the glue around the codec: C19_set_getall_roundtrip / C19_getall_decodes_each (CodecRepo.v: records with different content ids stored through Set, in one key-value transaction or one by one, are exactly what GetAll returns, for any number of records and any keys) and batches of 0-8 records through the real file repository over a real Badger database.",
+             "Also the glue around the codec: C19_set_getall_roundtrip / C19_getall_decodes_each (CodecRepo.v: records with different content ids stored through Set, in one key-value transaction or one by one, are exactly what GetAll returns, for any number of records and any keys) and batches of 0-8 records through the real file repository over a real Badger database. "
+             "Keys of 65000..100000 bytes are among the encode / round-trip / batch cases.",
         design="7/C19", technique="Coq proof (algebraic round-trip, layout lemma) + byte-level correspondence run",
         note="Bytes modelled as N < 256; only the canonical 36-character UUID text form is modelled. " + NOTE_COMMON),
     "C10": dict(
